@@ -308,9 +308,6 @@ def match_expect(pats, events):
     return None
 
 
-ESC_CPR = re.compile(rb"\x1b\x1b\[[1-9][0-9]*;[1-9][0-9]*R")
-
-
 class C05(core.Check):
     pid = "C05"
     gen_modules = ["escape_table"]
@@ -426,9 +423,6 @@ class C05(core.Check):
         return [b for op in case["ops"] if op[0] == "f" for b in op[1]]
 
     def exc_msg(self, case, name):
-        stream = bytes(self.stream_of(case))
-        if name == "AttributeError" and ESC_CPR.search(stream):
-            return "decoding raised AttributeError: ESC in front of a cursor position report (run[0].find on a tuple)"
         return f"decoding raised {name}"
 
     def whole_run(self, enc, via, stream, final_timeout):
@@ -641,7 +635,8 @@ class C05(core.Check):
             for enc in encs:
                 for more in (0, 1):
                     yield self.pk(enc, more, codes, "table", [seg])
-                    yield self.pk(enc, more, codes + [120], "table", [seg, [[120], ["k", "x"]]])
+                    if more or tier != "quick":
+                        yield self.pk(enc, more, codes + [120], "table", [seg, [[120], ["k", "x"]]])
             # every proper prefix: pending with more, something without raising otherwise
             for k in range(1, len(codes)):
                 yield self.pk(encs[i % 3], 1, codes[:k], "table-prefix")
@@ -751,7 +746,7 @@ class C05(core.Check):
                 if max(bs) < 256:
                     yield from self.all_cuts(enc, bs + [27, 91, 65], "utf8-bad-cuts")
         # all lead bytes x all second bytes (utf8 2-byte structure, double-byte tables)
-        step2 = 1 if tier != "quick" else 7
+        step2 = 1 if tier != "quick" else 11
         for a in range(0x80, 0x100):
             for b in range(0, 0x100, step2):
                 for enc in ("utf8", "wide"):
@@ -817,7 +812,7 @@ class C05(core.Check):
     def cases(self, rng, tier):
         yield from self.structured(tier)
         pool = SegPool(self.table()[0])
-        nrand = 5000 if tier == "quick" else 120000
+        nrand = 5000 if tier == "quick" else 150000
         for _ in range(nrand):
             yield self.random_stream_case(rng, pool)
         for _ in range(nrand // 2):
@@ -882,21 +877,26 @@ class C05(core.Check):
 
 C05.level_text = (
     "Proved in Coq for every byte stream, every encoding mode and every read schedule, no length bound, about the model whose key "
-    "table/_keyconv/mouse constants are regenerated from escape.py each run: progress (every successful process_keyqueue step reports "
-    ">= 1 event and consumes a non-empty prefix; parse_input's loop terminates within len(codes) steps and raw + pending = input, left "
-    "to right); decisive and more_is_prefix (a result obtained with more input allowed is unchanged by any bytes appended; "
-    "MoreInputRequired is prefix-closed; with more_available=False it is never raised); fragmentation_invariant (any cutting of a "
-    "stream into successive reads with no timeout in between gives the same events, raw codes and pending state as one read) and its "
-    "corollary with a final timeout; timeout_flushes and nothing_lost (the alarm decodes exactly the pending codes as they stand and "
-    "leaves nothing pending; over any Feed/Timeout schedule the raw codes plus the pending codes are the bytes read); unknown bytes pass "
-    "through as one event and what follows decodes as it would alone; every table entry decodes to its table name whatever follows "
-    "(vm_compute over the whole generated table, lifted by the decisive lemma); X10 mouse and cursor-position coordinates. "
-    "never_raises is REFUTED (genuine defect: ESC in front of a cursor position report raises AttributeError) and proved in the "
-    "_partial form: that is the only way a byte stream can raise.  Correspondence/oracle only: SGR mouse decimal parsing (int() "
-    "semantics), UTF-8 validity table, within_double_byte, names of non-table keys, get_input path.")
+    "table/_keyconv/mouse constants are regenerated from escape.py each run (trie built inside Coq by the model of KeyqueueTrie.add): "
+    "progress (every successful process_keyqueue step reports >= 1 event and consumes a non-empty prefix; parse_input's loop ends "
+    "within len(codes) steps; raw + pending = input, left to right); decisive, more_is_prefix, more_flag (a result obtained while more "
+    "input was allowed is unchanged by appended bytes; MoreInputRequired is prefix-closed and never raised with more_available=False); "
+    "fragmentation_invariant (+ _from_pending, _then): any cutting of a stream into successive reads with no alarm in between gives the "
+    "same events, raw codes and pending codes as one read, and so does everything afterwards; timeout_flushes and nothing_lost (the "
+    "alarm decodes exactly the pending codes as they stand and leaves nothing pending; over any Feed/Timeout schedule raw codes + "
+    "pending = bytes read); unknown bytes pass through as one event each and what follows decodes as it would alone; every table entry "
+    "decodes to its table name whatever follows (vm_compute over the whole generated table lifted by decisive); X10 mouse (coordinates, "
+    "documented names/buttons for the xterm range), SGR mouse with decimal parameters (through the model of the M/m scan, split(';') "
+    "and int()), cursor position reports, well-formed UTF-8 characters; never_raises (process_keyqueue on a non-empty byte string returns "
+    "or asks for more input, nothing else) and screen_never_raises (a hooked Screen never raises under any Feed/Timeout schedule) - the "
+    "defect this check found (ESC in front of a cursor position report raised AttributeError) is fixed in 228c9b3 and its inputs are "
+    "regression cases in corpus/C05.  Trusted rather than proved (exact "
+    "correspondence + documentation oracle every run): that the hand model is the code (int() semantics, UTF-8 validity table vs "
+    "CPython, within_double_byte, get_input path), names of well-known keys against an independent xterm reference table.")
 C05.level_note = (
     "Trusted: Coq kernel, the ast evaluator of the tables (cross-checked against the imported module every run), ExtrOcamlBasic "
-    "extraction + OCaml driver, the hand-written model (tied by exact correspondence on ~60k cases per quick run incl. every table entry "
-    "x every cut), the Python oracle.  Assumes byte codes 0..255, POSIX, default int digit limit; gpm and resize events out of scope.")
+    "extraction + OCaml driver, the hand-written model (tied by exact correspondence on ~50k cases per quick run incl. every table entry "
+    "x every cut x timeout-or-not), the Python oracle.  Assumes byte codes 0..255, POSIX, default int digit limit 4300; gpm and resize "
+    "events out of scope; synchronous get_input has no completion timer (observation recorded in the evidence).")
 
 CHECK = C05
